@@ -394,7 +394,7 @@ func (engine) Minimize(raw json.RawMessage, still func(json.RawMessage) bool) js
 			case "depfunc":
 				p.DepFunc = 0
 			case "depmethod":
-				p.DepMethod = false
+				p.DepMethod = 0
 			case "pure":
 				p.Pure = false
 			case "nonnil":
